@@ -64,7 +64,55 @@ class Entry:
         return f"{MODENAME[self.mode]}:{self.key}"
 
 
+def _processable(e):
+    """Can the reference model process this definition at all?  (Ungrammatical definitions - a group
+    sized by a later attribute, flags wider than their bitfield, malformed tuples - are C16's business;
+    the table-driven checks skip them instead of crashing.)"""
+    try:
+        def flags_ok(d):
+            for v in d.values():
+                if isinstance(v, tuple):
+                    if len(v) != 2:
+                        return False
+                    if L.is_bitfield_type(v[0]):
+                        if sum(L.tsize(t) for t in v[1].values()) > 8 * L.tsize(v[0]):
+                            return False
+                    elif not flags_ok(v[1]):
+                        return False
+            return True
+
+        if not flags_ok(e.pdict):
+            return False
+        for c in (1, 2):
+            pl = build_payload(e, lambda x: c, c)
+            if pl is None:
+                continue
+            w = L.Walk(e.pdict, pl, True, L.special_of(e.mode, e.clsid))
+            L.Walk(e.pdict, pl, False, L.special_of(e.mode, e.clsid))
+        return True
+    except Exception:  # noqa: BLE001
+        return False
+
+
+_ENTRIES = None
+
+
 def entries():
+    """All table entries (cached); entries the reference model cannot process are marked unrouted."""
+    global _ENTRIES
+    if _ENTRIES is None:
+        _ENTRIES = _entries()
+        for e in _ENTRIES:
+            if e.routed and not invalid_types(e.pdict) and not _processable(e):
+                e.routed = False
+                UNPROCESSABLE.add(e.label)
+    return _ENTRIES
+
+
+UNPROCESSABLE = set()
+
+
+def _entries():
     out = []
     for mode, table in TABLES.items():
         for key, pdict in table.items():
